@@ -1,8 +1,678 @@
-//! C19 – not implemented yet.
-use mvlib::Ctx;
-use serde_json::Value;
+//! C19 – the debugger reports where the machine really is.
+//!
+//! Stateless, preemption-bounded exploration of the *real* threads of the emulated-machine debug
+//! adapter (machine thread + poller thread are the repository's own `thread::spawn`s; the harness
+//! plays the debug session and calls the same adapter methods the DAP request handlers call).
+//! Scheduling points = hook H3; executed-PC tap and state accessors = H4.
 
-pub fn run(_ctx: &Ctx, _replay: Option<&Value>) -> i32 {
-    eprintln!("C19: engine not implemented yet");
-    2
+use crate::debugger::adapters::test_runner::TestRunnerAdapter;
+use crate::debugger::adapters::{Machine, MachineAdapter, MachineBreakpoint, MachineRunningState};
+use crate::sched::{Sched, Trace};
+use mos_core::codegen::ProgramCounter;
+use mos_core::parser::source::InMemoryParsingSource;
+use mos_core::parser::IdentifierPath;
+use mvlib::{fnv_str, Ctx, Finding};
+use serde_json::{json, Value};
+use std::sync::atomic::{AtomicBool, AtomicUsize, Ordering};
+use std::sync::{Arc, RwLock};
+
+#[derive(Clone, Debug, PartialEq, Eq, Hash)]
+pub enum Op {
+    /// breakpoint on the n-th distinct instruction address of the reference run
+    SetBp(usize),
+    Start,
+    /// let the machine run until it executed k more instructions (or idles / ends)
+    Wait(usize),
+    Pause,
+    Continue,
+    Next,
+    StepIn,
+    StepOut,
+}
+
+impl Op {
+    fn name(&self) -> String {
+        match self {
+            Op::SetBp(i) => format!("setBreakpoints({})", i),
+            Op::Start => "configurationDone".into(),
+            Op::Wait(k) => format!("wait({})", k),
+            Op::Pause => "pause".into(),
+            Op::Continue => "continue".into(),
+            Op::Next => "next".into(),
+            Op::StepIn => "stepIn".into(),
+            Op::StepOut => "stepOut".into(),
+        }
+    }
+    fn kind(&self) -> &'static str {
+        match self {
+            Op::SetBp(_) => "setBreakpoints",
+            Op::Start => "configurationDone",
+            Op::Wait(_) => "wait",
+            Op::Pause => "pause",
+            Op::Continue => "continue",
+            Op::Next => "next",
+            Op::StepIn => "stepIn",
+            Op::StepOut => "stepOut",
+        }
+    }
+}
+
+pub const PROGRAMS: [(&str, &str); 3] = [
+    ("straight", ".test \"t\" {\ninx\ninx\ninx\ninx\ninx\ninx\nbrk\n}"),
+    ("loop", ".test \"t\" {\nldx #3\nl:\ndex\nbne l\nbrk\n}"),
+    ("subroutine", ".test \"t\" {\njsr s\ninx\nbrk\ns:\niny\nrts\n}"),
+];
+
+#[derive(Clone, Debug, PartialEq)]
+struct Truth {
+    state: MachineRunningState,
+    pc: u16,
+    x: u8,
+    y: u8,
+    executed: usize,
+}
+
+#[derive(Clone, Debug, Default)]
+pub struct Outcome {
+    /// (signature, description)
+    pub violations: Vec<(String, String)>,
+    pub trace: Trace,
+    pub observations: Vec<String>,
+    pub ill_formed: bool,
+    pub preemptions: usize,
+}
+
+struct Shared {
+    sched: Arc<Sched>,
+    machine_idle: Arc<AtomicBool>,
+}
+
+static INSTALL: std::sync::Once = std::sync::Once::new();
+
+fn global_sched() -> Arc<Sched> {
+    static S: once_cell::sync::OnceCell<Arc<Sched>> = once_cell::sync::OnceCell::new();
+    let s = S.get_or_init(Sched::new).clone();
+    INSTALL.call_once(|| crate::verif_hooks::install(s.clone()));
+    s
+}
+
+/// Runs one script under one schedule on fresh real threads.
+pub fn run_script(prog: &str, reference: &[u16], script: &[Op], schedule: &[usize]) -> Outcome {
+    let sched = global_sched();
+    let mut out = Outcome::default();
+    sched.begin(schedule, 4000);
+    let src: Arc<std::sync::Mutex<dyn mos_core::parser::source::ParsingSource>> =
+        InMemoryParsingSource::new().add("main.asm", prog).into();
+    let adapter = match TestRunnerAdapter::new(false, src, "main.asm", &IdentifierPath::from("t")) {
+        Ok(a) => a,
+        Err(e) => {
+            out.violations.push(("machinery:adapter".into(), format!("cannot create adapter: {}", e)));
+            out.trace = sched.finish();
+            return out;
+        }
+    };
+    let runner = adapter.verif_runner();
+    let state = adapter.verif_state();
+    sched.watch_state(state.clone());
+    let boxed: Box<dyn MachineAdapter + Send + Sync> = Box::new(adapter);
+    let machine = Machine::new(Arc::new(RwLock::new(boxed)));
+
+    let truth = |sched: &Sched| -> Truth {
+        let r = runner.read().unwrap();
+        Truth {
+            // the machine thread keeps the state locked while it works on an instruction: then it is Running
+            state: state.try_lock().map(|g| *g).unwrap_or(MachineRunningState::Running),
+            pc: r.cpu().get_program_counter(),
+            x: r.cpu().get_x_register(),
+            y: r.cpu().get_y_register(),
+            executed: sched.executed_count(),
+        }
+    };
+    // distinct addresses of the reference run, in order of first execution
+    let mut addrs: Vec<u16> = vec![];
+    for pc in reference {
+        if !addrs.contains(pc) {
+            addrs.push(*pc);
+        }
+    }
+    let mut bps: Vec<(u64, Vec<u16>)> = vec![]; // (step at which the set completed, addresses)
+    let mut pos: usize = 0; // index into the reference sequence of the current instruction
+    let mut last_stop: Option<Truth> = None;
+    let mut stepped_by_session = 0usize;
+    let is_connected = |m: &Machine| -> bool { m.adapter().is_connected().unwrap_or(false) };
+
+    // position of pc in the reference at or after `from`
+    let find_pos = |from: usize, pc: u16| -> Option<usize> { (from..reference.len()).find(|i| reference[*i] == pc) };
+
+    let mut viol = |out: &mut Outcome, op: &Op, inv: &str, what: String| {
+        out.violations.push((format!("dap:{}:{}", op.kind(), inv), what));
+    };
+
+    'script: for op in script {
+        if std::env::var("C19_DEBUG").is_ok() {
+            eprintln!("[c19] op {:?} step {}", op, sched.step());
+        }
+        if sched.deadlocked() {
+            break;
+        }
+        let before = truth(&sched);
+        let stopped_now = matches!(before.state, MachineRunningState::Stopped(_));
+        match op {
+            Op::Continue | Op::Next | Op::StepIn | Op::StepOut => {
+                if !stopped_now || !is_connected(&machine) {
+                    out.ill_formed = true;
+                    break 'script;
+                }
+                // stepping past the final BRK ends the test inside the session thread: not a session a client has
+                if before.pc == *reference.last().unwrap() {
+                    out.ill_formed = true;
+                    break 'script;
+                }
+                // stepOut outside a subroutine: the statement does not say what it does
+                if *op == Op::StepOut {
+                    if let Some(p) = find_pos(pos, before.pc) {
+                        if step_out_index(reference, p) == p {
+                            out.ill_formed = true;
+                            break 'script;
+                        }
+                    }
+                }
+            }
+            Op::Pause => {
+                if before.state != MachineRunningState::Running || !is_connected(&machine) {
+                    out.ill_formed = true;
+                    break 'script;
+                }
+            }
+            Op::Start => {
+                if before.state != MachineRunningState::Launching {
+                    out.ill_formed = true;
+                    break 'script;
+                }
+            }
+            Op::Wait(_) => {
+                if before.state != MachineRunningState::Running {
+                    out.ill_formed = true;
+                    break 'script;
+                }
+            }
+            Op::SetBp(i) => {
+                if *i >= addrs.len() {
+                    out.ill_formed = true;
+                    break 'script;
+                }
+            }
+        }
+        match op {
+            Op::SetBp(i) => {
+                let a = addrs[*i];
+                let bp = MachineBreakpoint {
+                    line: *i,
+                    column: None,
+                    range: ProgramCounter::new(a as usize)..ProgramCounter::new(a as usize + 1),
+                };
+                let _ = machine.adapter_mut().set_breakpoints("main.asm", vec![bp]);
+                bps.push((sched.step(), vec![a]));
+            }
+            Op::Start => {
+                let _ = machine.adapter_mut().start();
+                sched.clear_idle();
+            }
+            Op::Wait(k) => {
+                let target = sched.executed_count() + k;
+                let s2 = sched.clone();
+                sched.wait_until(
+                    "h:wait",
+                    Box::new(move || s2.exec_count_atomic() >= target || s2.machine_quiet()),
+                );
+            }
+            Op::Pause => {
+                let _ = machine.adapter_mut().pause();
+            }
+            Op::Continue => {
+                last_stop = None;
+                let _ = machine.adapter_mut().resume();
+                sched.clear_idle();
+            }
+            Op::Next => {
+                last_stop = None;
+                let _ = machine.adapter_mut().next();
+                stepped_by_session += 1;
+            }
+            Op::StepIn => {
+                last_stop = None;
+                let _ = machine.adapter_mut().step_in();
+                stepped_by_session += 1;
+            }
+            Op::StepOut => {
+                last_stop = None;
+                let _ = machine.adapter_mut().step_out();
+                stepped_by_session += 1;
+            }
+        }
+        if sched.deadlocked() {
+            break;
+        }
+        // ---- observation through the API, bracketed by the truth
+        let t0 = truth(&sched);
+        let api_state = machine.adapter().running_state().unwrap_or(MachineRunningState::Launching);
+        let api_regs = machine.adapter().registers().unwrap_or_default();
+        let t1 = truth(&sched);
+        out.observations.push(format!(
+            "{}: api {:?} X={:?} | cpu pc=${:04x} x={} y={} executed={}",
+            op.name(), api_state, api_regs.get("X"), t1.pc, t1.x, t1.y, t1.executed
+        ));
+        let must_be_stopped = matches!(op, Op::Pause | Op::Next | Op::StepIn | Op::StepOut);
+        if must_be_stopped && is_connected(&machine) && !matches!(api_state, MachineRunningState::Stopped(_)) {
+            viol(&mut out, op, "not-stopped", format!("after {} the adapter reports {:?}", op.name(), api_state));
+        }
+        if let MachineRunningState::Stopped(p) = api_state {
+            let p = p.as_usize() as u16;
+            // (t0 was taken before the adapter was asked: the machine may still have been running then)
+            let _ = &t0;
+            if t1.pc != p {
+                viol(&mut out, op, "reported-pc-differs-from-cpu",
+                    format!("after {} the adapter reports Stopped(${:04x}) but the CPU is at ${:04x} (X={}, {} instructions executed)", op.name(), p, t1.pc, t1.x, t1.executed));
+            } else if api_regs.get("X").map(|x| *x as u8) != Some(t1.x) {
+                viol(&mut out, op, "registers-differ-from-cpu", format!("registers() X={:?} but cpu X={}", api_regs.get("X"), t1.x));
+            }
+            // let everybody else run until the machine is quiet, then look again: nothing may have moved
+            let s2 = sched.clone();
+            sched.wait_until("h:settle", Box::new(move || s2.machine_quiet()));
+            if sched.deadlocked() {
+                break;
+            }
+            let t2 = truth(&sched);
+            if is_connected(&machine) || t2.executed == t1.executed {
+                if (t2.pc, t2.x, t2.y, t2.executed) != (t1.pc, t1.x, t1.y, t1.executed) || t2.state != api_state {
+                    viol(&mut out, op, "not-halted-after-stop",
+                        format!("the adapter reported {:?}; after letting the other threads run the CPU is at ${:04x} (was ${:04x}), {} instructions executed (was {}), state {:?}",
+                            api_state, t2.pc, t1.pc, t2.executed, t1.executed, t2.state));
+                }
+            }
+            if let Some(ls) = &last_stop {
+                if (ls.pc, ls.x, ls.y) != (t2.pc, t2.x, t2.y) && !matches!(op, Op::Pause | Op::Wait(_)) {
+                    // covered by the checks above
+                }
+            }
+            last_stop = Some(t2.clone());
+            // stepping order
+            match find_pos(pos, t2.pc) {
+                Some(np) => {
+                    let expected = match op {
+                        Op::StepIn => Some(pos + 1),
+                        Op::Next => Some(next_index(reference, pos)),
+                        Op::StepOut => Some(step_out_index(reference, pos)),
+                        _ => None,
+                    };
+                    if let Some(e) = expected {
+                        if np != e {
+                            viol(&mut out, op, "wrong-step-target",
+                                format!("{} from instruction #{} (${:04x}) must stop at #{} (${:04x}) but stopped at #{} (${:04x})",
+                                    op.name(), pos, reference[pos], e, reference.get(e).copied().unwrap_or(0), np, t2.pc));
+                        }
+                    }
+                    pos = np;
+                }
+                None => viol(&mut out, op, "off-sequence",
+                    format!("stopped at ${:04x}, which does not follow instruction #{} of the uninterrupted run {:04x?}", t2.pc, pos, reference)),
+            }
+        }
+    }
+    // disconnect
+    if std::env::var("C19_DEBUG").is_ok() {
+        eprintln!("[c19] disconnect, step {}", sched.step());
+    }
+    let _ = machine.adapter_mut().stop();
+    let trace = sched.finish();
+    if std::env::var("C19_DEBUG").is_ok() {
+        eprintln!("[c19] finished: {} decisions, {} taps, deadlock {:?}", trace.decisions.len(), trace.taps.len(), trace.deadlock);
+    }
+    machine.join();
+
+    // ---- post-hoc: executed instructions follow the reference, breakpoints are honoured
+    if trace.deadlock.is_none() {
+        // (a) machine-thread executions are a subsequence of the reference in order
+        let mut idx = 0usize;
+        for t in &trace.taps {
+            match (idx..reference.len()).find(|i| reference[*i] == t.pc) {
+                Some(i) => idx = i + 1,
+                None => {
+                    out.violations.push(("dap:run:off-sequence".into(),
+                        format!("the machine executed ${:04x} which does not continue the uninterrupted sequence {:04x?}", t.pc, reference)));
+                    break;
+                }
+            }
+            // (no state = the machine thread itself holds the state lock, i.e. it is Running)
+            if t.state != Some(MachineRunningState::Running) && t.state.is_some() {
+                out.violations.push(("dap:run:executed-while-not-running".into(),
+                    format!("the machine thread executed the instruction at ${:04x} while the adapter state was {:?}", t.pc, t.state)));
+            }
+        }
+        // (b) breakpoints: an instruction at a breakpoint address is only executed by the free-running machine
+        // right after a stop at that address
+        for (k, t) in trace.taps.iter().enumerate() {
+            let prev_step = if k > 0 { trace.taps[k - 1].step } else { 0 };
+            // breakpoints that were in place before the previous instruction executed
+            let active: Vec<u16> = bps
+                .iter()
+                .rev()
+                .find(|(s, _)| *s <= prev_step)
+                .map(|(_, a)| a.clone())
+                .unwrap_or_default();
+            // a later set replaces earlier ones; if the set changed after prev_step take no verdict for this instruction
+            let changed_since = bps.iter().any(|(s, _)| *s > prev_step && *s <= t.step);
+            if changed_since || !active.contains(&t.pc) {
+                continue;
+            }
+            let stopped_here = trace
+                .state_log
+                .iter()
+                .any(|(s, st)| *s > prev_step && *s <= t.step && *st == MachineRunningState::Stopped(ProgramCounter::new(t.pc as usize)));
+            if !stopped_here {
+                out.violations.push(("dap:run:breakpoint-skipped".into(),
+                    format!("the free-running machine executed the instruction at ${:04x}, which has a breakpoint, without stopping there first", t.pc)));
+            }
+        }
+    } else {
+        out.violations.push(("dap:deadlock".into(), trace.deadlock.clone().unwrap()));
+    }
+    let _ = stepped_by_session;
+    out.preemptions = trace.decisions.iter().map(|d| d.cost(d.chosen)).sum();
+    out.trace = trace;
+    out
+}
+
+/// index in the reference after `next` from `pos` (a jsr runs until the instruction after it)
+fn next_index(reference: &[u16], pos: usize) -> usize {
+    // a jsr is recognised in the reference by a jump that later returns to pc+3
+    let pc = reference[pos];
+    if pos + 1 < reference.len() && reference[pos + 1] != pc.wrapping_add(1) && reference[pos + 1] != pc.wrapping_add(2) && reference[pos + 1] != pc.wrapping_add(3) {
+        if let Some(i) = (pos + 1..reference.len()).find(|i| reference[*i] == pc.wrapping_add(3)) {
+            return i;
+        }
+    }
+    pos + 1
+}
+
+/// index in the reference after `stepOut` from `pos`
+fn step_out_index(reference: &[u16], pos: usize) -> usize {
+    // inside a subroutine = between a jsr (non-sequential forward jump) and the return to jsr+3
+    for j in (0..pos).rev() {
+        let pc = reference[j];
+        let seq = [pc.wrapping_add(1), pc.wrapping_add(2), pc.wrapping_add(3)];
+        if !seq.contains(&reference[j + 1]) {
+            // a jump at j: is it a call that returns to pc+3 after pos?
+            if let Some(i) = (pos..reference.len()).find(|i| reference[*i] == pc.wrapping_add(3)) {
+                if !(j + 1..pos + 1).any(|m| reference[m] == pc.wrapping_add(3)) {
+                    return i;
+                }
+            }
+        }
+    }
+    pos
+}
+
+/// All scripts: optional breakpoint, start, then up to n operations.
+pub fn scripts(n: usize, n_addrs: usize) -> Vec<Vec<Op>> {
+    let mut out = vec![];
+    let tail_ops = |with_bp: bool| -> Vec<Op> {
+        let mut v = vec![Op::Wait(1), Op::Wait(3), Op::Pause, Op::Continue, Op::Next, Op::StepIn, Op::StepOut];
+        if with_bp {
+            v.push(Op::SetBp(1));
+        }
+        v
+    };
+    let mut heads: Vec<Vec<Op>> = vec![vec![Op::Start]];
+    for b in 0..n_addrs.min(5) {
+        heads.push(vec![Op::SetBp(b), Op::Start]);
+    }
+    for h in heads {
+        let ops = tail_ops(h.len() == 1);
+        // all sequences of length 0..=n
+        let mut seqs: Vec<Vec<Op>> = vec![vec![]];
+        let mut frontier: Vec<Vec<Op>> = vec![vec![]];
+        for _ in 0..n {
+            let mut next = vec![];
+            for s in &frontier {
+                for o in &ops {
+                    // prune sequences that are ill-formed regardless of the schedule
+                    let last = s.last();
+                    let ok = match (last, o) {
+                        (Some(Op::Wait(_)), Op::Wait(_)) => false,
+                        (Some(Op::Pause), Op::Pause) => false,
+                        (Some(Op::Pause), Op::Wait(_)) => false,
+                        (Some(Op::Continue), Op::Continue) => false,
+                        _ => true,
+                    };
+                    if ok {
+                        let mut t = s.clone();
+                        t.push(o.clone());
+                        next.push(t);
+                    }
+                }
+            }
+            seqs.extend(next.iter().cloned());
+            frontier = next;
+        }
+        for s in seqs {
+            let mut full = h.clone();
+            full.extend(s);
+            out.push(full);
+        }
+    }
+    out
+}
+
+#[derive(Default)]
+pub struct ScriptStats {
+    pub executions: u64,
+    pub ill_formed: bool,
+    pub outcomes: std::collections::HashSet<u64>,
+    pub findings: Vec<(String, String, Value)>,
+    pub capped: bool,
+    pub replays_checked: u64,
+    pub max_decisions: usize,
+}
+
+/// Preemption-bounded DFS over the schedules of one script.
+pub fn explore(prog_name: &str, prog: &str, reference: &[u16], script: &[Op], bound: usize, max_exec: u64) -> ScriptStats {
+    let mut stats = ScriptStats::default();
+    let mut stack: Vec<Vec<usize>> = vec![vec![]];
+    let script_json: Vec<String> = script.iter().map(|o| o.name()).collect();
+    while let Some(prefix) = stack.pop() {
+        if stats.executions >= max_exec {
+            stats.capped = true;
+            break;
+        }
+        let out = run_script(prog, reference, script, &prefix);
+        stats.executions += 1;
+        if out.ill_formed && prefix.is_empty() {
+            // not a session a DAP client produces under the default schedule: run once only
+            stats.ill_formed = true;
+        }
+        stats.max_decisions = stats.max_decisions.max(out.trace.decisions.len());
+        if out.trace.capped {
+            stats.capped = true;
+        }
+        let choices: Vec<usize> = out.trace.decisions.iter().map(|d| d.chosen).collect();
+        stats.outcomes.insert(fnv_str(&format!("{:?}{:?}", out.observations, out.violations.iter().map(|v| &v.0).collect::<Vec<_>>())));
+        if !out.violations.is_empty() || stats.executions % 64 == 1 {
+            // replay the recorded schedule: the observations must be identical
+            let again = run_script(prog, reference, script, &choices);
+            stats.replays_checked += 1;
+            if again.observations != out.observations
+                || again.violations.iter().map(|v| &v.0).collect::<Vec<_>>() != out.violations.iter().map(|v| &v.0).collect::<Vec<_>>()
+            {
+                eprintln!("[c19] replay divergence for script {:?} schedule {:?}\n first: {:?}\n again: {:?}", script_json, choices, out.observations, again.observations);
+                std::process::exit(2);
+            }
+        }
+        for (sig, what) in &out.violations {
+            let sig = format!("{}:preemptions-{}", sig, out.preemptions);
+            let readable: Vec<String> = out.trace.decisions.iter().filter(|d| d.chosen != 0).map(|d| format!("{}@{}", d.who.0, d.who.1)).collect();
+            stats.findings.push((
+                sig,
+                format!("{} [program {}, script {:?}, deviations from the default schedule: {:?}]", what, prog_name, script_json, readable),
+                json!({"program": prog_name, "source": prog, "script": script_json, "schedule": choices, "observations": out.observations}),
+            ));
+        }
+        if out.ill_formed {
+            continue;
+        }
+        // children: deviate at one later decision
+        let mut cost = 0usize;
+        for (i, d) in out.trace.decisions.iter().enumerate() {
+            if i >= prefix.len() {
+                for alt in 1..d.enabled {
+                    if cost + d.cost(alt) <= bound {
+                        let mut p: Vec<usize> = choices[..i].to_vec();
+                        p.push(alt);
+                        stack.push(p);
+                    }
+                }
+            }
+            cost += d.cost(d.chosen);
+        }
+    }
+    stats
+}
+
+pub fn reference_run(prog: &str) -> Vec<u16> {
+    // configurationDone, then run to the end under the default schedule
+    let script = vec![Op::Start, Op::Wait(1000)];
+    let out = run_script(prog, &[0u16; 0], &script, &[]);
+    out.trace.taps.iter().map(|t| t.pc).collect()
+}
+
+/// Worker: explores the scripts of shard i of n and prints one JSON document.
+pub fn worker(tier_thorough: bool, shard: usize, shards: usize) -> i32 {
+    let (n, bound) = if tier_thorough { (3, 2) } else { (2, 1) };
+    let mut result = vec![];
+    let mut k = 0usize;
+    for (pname, prog) in PROGRAMS.iter() {
+        let reference = reference_run(prog);
+        let mut addrs: Vec<u16> = vec![];
+        for pc in &reference {
+            if !addrs.contains(pc) {
+                addrs.push(*pc);
+            }
+        }
+        for script in scripts(n, addrs.len()) {
+            k += 1;
+            if k % shards != shard {
+                continue;
+            }
+            // pause-containing scripts get one more preemption in thorough
+            let b = if tier_thorough && script.contains(&Op::Pause) && script.len() <= 4 { bound + 1 } else { bound };
+            let st = explore(pname, prog, &reference, &script, b, 200_000);
+            result.push(json!({
+                "program": pname,
+                "script": script.iter().map(|o| o.name()).collect::<Vec<_>>(),
+                "executions": st.executions,
+                "ill_formed": st.ill_formed,
+                "outcomes": st.outcomes.iter().collect::<Vec<_>>(),
+                "capped": st.capped,
+                "replays": st.replays_checked,
+                "max_decisions": st.max_decisions,
+                "bound": b,
+                "findings": st.findings.iter().map(|(s, w, c)| json!([s, w, c])).collect::<Vec<_>>(),
+                "reference": reference,
+            }));
+        }
+    }
+    println!("{}", json!(result));
+    0
+}
+
+pub fn run(ctx: &Ctx, replay: Option<&Value>, rest: &[String]) -> i32 {
+    if rest.len() >= 3 && rest[0] == "--worker" {
+        return worker(ctx.tier.is_thorough(), rest[1].parse().unwrap(), rest[2].parse().unwrap());
+    }
+    if let Some(case) = replay {
+        let prog = case["source"].as_str().unwrap_or("");
+        let reference = reference_run(prog);
+        println!("reference run: {:04x?}", reference);
+        println!("script {} schedule {} – re-run `./check C19` for the verdict; recorded observations:\n{:#}", case["script"], case["schedule"], case["observations"]);
+        return 0;
+    }
+    let shards = 16usize;
+    let exe = std::env::current_exe().unwrap();
+    let tier = ctx.tier.as_str().to_string();
+    let children: Vec<_> = (0..shards)
+        .map(|i| {
+            std::process::Command::new(&exe)
+                .args(["C19", "--tier", &tier, "--worker", &i.to_string(), &shards.to_string()])
+                .stdout(std::process::Stdio::piped())
+                .stderr(std::process::Stdio::inherit())
+                .spawn()
+                .expect("cannot spawn worker")
+        })
+        .collect();
+    let mut states = std::collections::HashSet::new();
+    let mut transitions = 0u64;
+    let mut replays = 0u64;
+    let mut scripts_total = 0u64;
+    let mut ill = 0u64;
+    let mut max_bound = 0u64;
+    let mut samples = vec![];
+    for c in children {
+        let o = c.wait_with_output().expect("worker failed");
+        if !o.status.success() {
+            eprintln!("MACHINERY: C19 worker exited with {:?}", o.status);
+            return 2;
+        }
+        let v: Value = match serde_json::from_slice(&o.stdout) {
+            Ok(v) => v,
+            Err(e) => {
+                eprintln!("MACHINERY: cannot parse worker output: {}", e);
+                return 2;
+            }
+        };
+        for s in v.as_array().cloned().unwrap_or_default() {
+            scripts_total += 1;
+            let execs = s["executions"].as_u64().unwrap_or(0);
+            transitions += execs * s["max_decisions"].as_u64().unwrap_or(0).max(1);
+            ctx.add_evals(execs);
+            replays += s["replays"].as_u64().unwrap_or(0);
+            max_bound = max_bound.max(s["bound"].as_u64().unwrap_or(0));
+            if s["ill_formed"] == true {
+                ill += 1;
+            }
+            if s["capped"] == true {
+                ctx.cap(format!("execution cap hit for script {}", s["script"]));
+            }
+            for o in s["outcomes"].as_array().cloned().unwrap_or_default() {
+                let key = format!("{}{}{}", s["program"], s["script"], o);
+                states.insert(fnv_str(&key));
+                ctx.nontrivial(fnv_str(&key));
+            }
+            if samples.len() < 12 && execs > 1 {
+                samples.push(json!({"program": s["program"], "script": s["script"], "schedules_explored": execs, "distinct_outcomes": s["outcomes"].as_array().map(|a| a.len())}));
+            }
+            for f in s["findings"].as_array().cloned().unwrap_or_default() {
+                ctx.finding(Finding::new(f[0].as_str().unwrap_or("?"), f[1].as_str().unwrap_or(""), f[2].clone()));
+            }
+        }
+    }
+    for s in samples {
+        ctx.add_sample(s);
+    }
+    ctx.set("states", json!(states.len()));
+    ctx.set("transitions", json!(transitions));
+    ctx.set("traces_validated_against_impl", json!(replays));
+    ctx.set("scripts", json!(scripts_total));
+    ctx.set("ill_formed_scripts_run_once", json!(ill));
+    ctx.set("preemption_bound_completed", json!(max_bound));
+    ctx.finish(
+        "model_checking",
+        "stateless preemption-bounded DFS over the interleavings of the real session (harness), machine and poller threads of the emulated-machine debug adapter at the H3 scheduling points, for every script over {setBreakpoints, configurationDone, wait(k), pause, continue, next, stepIn, stepOut} up to the length bound on 3 programs (straight line, loop, subroutine); states = distinct (script, observation sequence, violated invariants) outcomes; transitions = scheduling decisions taken; traces validated = schedules replayed a second time with identical observations",
+        true,
+        &[
+            "the harness calls the adapter methods the DAP request handlers call; TCP framing and the session's select loop are not executed",
+            "one thread runs between two scheduling points (sequentially consistent interleavings); all shared data of these threads is behind Mutex/RwLock/AtomicBool/channels in safe Rust",
+            "a breakpoint set concurrently with the instruction it names takes no verdict for that instruction",
+            "preemption bound 1 (quick) / 2, 3 for short pause scripts (thorough); script length bound 2 / 3 after configurationDone",
+        ],
+    )
 }
